@@ -259,14 +259,6 @@ Definition m_index (s : gostr) (p : str) : res :=
   | None => VUndef
   end.
 
-(* byte-wise comparison of Go strings *)
-Fixpoint cmp_list (a b : list Z) : Z :=
-  match a, b with
-  | [], [] => 0
-  | [], _ :: _ => -1
-  | _ :: _, [] => 1
-  | x :: a', y :: b' => if x <? y then -1 else if y <? x then 1 else cmp_list a' b'
-  end.
 Definition m_localeCompare (a b : str) : Z := cmp_list (enc8 (dec16 a)) (enc8 (dec16 b)).
 
 (* string16Value(chrList) observed through Value.string() *)
@@ -310,6 +302,8 @@ Definition call_model (m : meth) (r : recv) (args : list arg) : option res :=
         | MTrim => Some (VStr (enc16 (m_trim s)))
         | MToLower => option_map (fun x => VStr (enc16 x)) (map_opt lower1 s)
         | MToUpper => option_map (fun x => VStr (enc16 x)) (map_opt upper1 s)
+        | MLocaleCompare =>    (* this < that / this == that on the Go strings *)
+            option_map (fun t => VInt (cmp_list (enc8 s) (enc8 t))) (arg_gostring (arg_at args 0))
         | MLength =>
             match r with RLit _ | RStrObj _ => Some (VInt (zlen (enc16 s))) | _ => None end
         | MIndex =>
